@@ -28,6 +28,7 @@ type Contract struct {
 	Props     []string
 	Requires  []*Clause
 	Ensures   []*Clause
+	Assumes   []*Clause
 	Modifies  []string
 	HasMod    bool
 	PanicsWhen *Clause
@@ -70,7 +71,7 @@ type TypeSpec struct {
 
 var clauseKeywords = map[string]bool{"property": true, "requires": true, "ensures": true, "modifies": true,
 	"panics": true, "loop": true, "invariant": true, "decreases": true, "trusted": true, "pure": true, "mode": true,
-	"nosafety": true, "ghostfield": true, "holds": true, "nowrap": true, "exclusive": true, "inline": true, "forall": true, "guards": true, "lockinv": true, "ghost": true, "unroll": true}
+	"nosafety": true, "assumes": true, "ghostfield": true, "holds": true, "nowrap": true, "exclusive": true, "inline": true, "forall": true, "guards": true, "lockinv": true, "ghost": true, "unroll": true}
 
 // rewriteImplies turns `A ==> B` (lowest precedence, right associative, split at
 // bracket depth 0) into `(!(A) || (B))`, recursively inside brackets too.
@@ -207,6 +208,10 @@ func (e *Engine) parseContractFile(p *packages.Package, f *ast.File, fname strin
 		switch kw {
 		case "func":
 			key := p.Name + "." + rest
+			if strings.HasPrefix(rest, "ext:") {
+				// contract of a library function: "ext:btree.BTreeG.Min"
+				key = strings.TrimPrefix(rest, "ext:")
+			}
 			cur = &Contract{Key: key, Loops: map[int]*LoopSpec{}, Where: where}
 			curLemma, curType, curLoop = nil, nil, nil
 			fi := e.funcs[key]
@@ -221,6 +226,13 @@ func (e *Engine) parseContractFile(p *packages.Package, f *ast.File, fname strin
 			e.lemmas = append(e.lemmas, curLemma)
 			cur, curType, curLoop = nil, nil, nil
 		case "type":
+			if strings.HasPrefix(rest, "ext:") {
+				rest = strings.TrimPrefix(rest, "ext:")
+				curType = &TypeSpec{Key: rest, Guards: map[string][]string{}, LockInv: map[string][]*Clause{}, Where: where, GhostFields: map[string]string{}, Pkg: p}
+				e.typeSpecs[curType.Key] = curType
+				cur, curLemma, curLoop = nil, nil, nil
+				continue
+			}
 			curType = &TypeSpec{Key: p.Name + "." + rest, Guards: map[string][]string{}, LockInv: map[string][]*Clause{}, Where: where, GhostFields: map[string]string{}, Pkg: p}
 			e.typeSpecs[curType.Key] = curType
 			cur, curLemma, curLoop = nil, nil, nil
@@ -237,6 +249,11 @@ func (e *Engine) parseContractFile(p *packages.Package, f *ast.File, fname strin
 				cur.Requires = append(cur.Requires, cl)
 			} else if curLemma != nil {
 				curLemma.Requires = append(curLemma.Requires, cl)
+			}
+		case "assumes":
+			// a postcondition callers may rely on but the body does not prove here (listed as trusted)
+			if cur != nil {
+				cur.Assumes = append(cur.Assumes, e.parseClause(rest, where))
 			}
 		case "ensures":
 			cl := e.parseClause(rest, where)
